@@ -160,7 +160,12 @@ def run_one(acc, c):
     if c.get("special") == "ellipsis":
         pairs = [("...", list(O)) for k in range(n + 1) for O in itertools.combinations(range(n), k)]
     else:
-        pairs = [(list(I), list(O)) for ki in range(len(verts) + 1) for I in itertools.combinations(verts, ki)
+        # inputs in EVERY order (for <= 3 inputs; larger sets: sorted and reversed), outputs sorted and reversed
+        def orders(I):
+            if len(I) <= 3:
+                return [list(x) for x in itertools.permutations(I)]
+            return [list(I), list(reversed(I))]
+        pairs = [(Io, list(O)) for ki in range(len(verts) + 1) for I in itertools.combinations(verts, ki) for Io in orders(I)
                  for ko in range(n + 1) for O in itertools.combinations(range(n), ko)]
     stats = {}
     for I, O in pairs:
